@@ -14,6 +14,7 @@ from .values import (
     SBit,
     SInt,
     SLin,
+    SNeg,
     SBits,
     SBytes,
     ball,
@@ -68,7 +69,7 @@ class NumpyFacade:
 # ---------------------------------------------------------------- builtins shadows
 class _IntMeta(type):
     def __instancecheck__(cls, o):
-        return isinstance(o, (builtins.int, SBit, SInt, SLin, _np.integer))
+        return isinstance(o, (builtins.int, SBit, SInt, SLin, SNeg, _np.integer))
 
 
 class s_int(metaclass=_IntMeta):
@@ -161,8 +162,9 @@ def s_isinstance(o, t):
         return any(s_isinstance(o, x) for x in t)
     if isinstance(o, SymMember):
         return isinstance(t, type) and issubclass(o._cls, t)
+    t = getattr(t, "_pyvc_real", t)
     if t is builtins.int or t is s_int:
-        return isinstance(o, (builtins.int, SBit, SInt, SLin, _np.integer))
+        return isinstance(o, (builtins.int, SBit, SInt, SLin, SNeg, _np.integer))
     if t is builtins.bytes or t is s_bytes:
         return isinstance(o, (builtins.bytes, SBytes))
     if t is _real_bitarray or t is SBits:
@@ -406,6 +408,8 @@ def install_tripwires(modules):
                 _tripwire(mod, n, mod.__name__ + "." + n)
 
     class TripDatetime(_dt.datetime):
+        _pyvc_real = _dt.datetime
+
         @classmethod
         def now(cls, tz=None):
             TRIPPED.append("datetime.now")
